@@ -394,7 +394,7 @@ func (m *Monitors) afterDeliver(n *RealNode, f *Flight, enc string) {
 		sameHeight := uint64(post.Height()) == pre.h
 		interfered := false
 		for _, s := range n.spi {
-			if strings.HasPrefix(s, "verd(0") || strings.HasSuffix(s, ";1)") && (strings.HasPrefix(s, "verd(") || strings.HasPrefix(s, "prop(")) {
+			if strings.HasPrefix(s, "verd(0") || !strings.HasSuffix(s, ";-)") && (strings.HasPrefix(s, "verd(") || strings.HasPrefix(s, "prop(")) {
 				interfered = true
 			}
 		}
